@@ -914,6 +914,13 @@ def cell_method(ip, recv, name, args, kw):
 def _list_method(ip, recv, c, name, args, kw):
     st = ip.st
     M = _M()
+    if name == '__getitem__':
+        a = args[0]
+        if isinstance(a, slice):
+            return M.slice_(ip, recv, a.start, a.stop, a.step)
+        return M.index(ip, recv, a)
+    if name == '__len__':
+        return M.seq_len(ip, recv)
     if 'items' in c:
         items = c['items']
         if name == 'append':
